@@ -171,7 +171,8 @@ def krylov_case(draw):
     return {'dims': dims, 'cplx': draw(st.booleans()), 'seed': draw(gen.SEED), 'h': draw(st.sampled_from([0.05, 0.2, 0.5, 1.0])),
             'rank': draw(st.sampled_from(['maximal', 'rank1', 'two'])), 'norm': draw(st.sampled_from([1.0, 1.0, 2.0, 0.5, 1e-6, 1e4])),
             # the Krylov propagator makes no use of a gauge: generic (non-orthonormal) cores, left-orthonormal cores
-            'gauge': draw(st.sampled_from(['right_orthonormal', 'generic', 'generic', 'left_orthonormal']))}
+            'gauge': draw(st.sampled_from(['right_orthonormal', 'generic', 'generic', 'left_orthonormal'])),
+            'unit_exp': draw(st.sampled_from([0, 0, -13, 6]))}
 
 
 def body_krylov(c):
@@ -179,7 +180,15 @@ def body_krylov(c):
     dims, d = c['dims'], len(c['dims'])
     N = int(np.prod(dims))
     H = hamiltonian(rng, N, c['cplx'])
+    # units: exp(-i t H) only depends on the product t H -- a Hamiltonian of norm 1e-13 (SI units) with a step of 1e13 is the same
+    # problem as norm 1 with step 1
+    unit = 10.0 ** c.get('unit_exp', 0)
     op = TT(dense.op_cores(H, dims))
+    if unit != 1.0:
+        # (as a user would write it, `1e-13 * op`: the factor sits in the first core.  With the factor in the LAST core the
+        # Lanczos sums H v - alpha v have blocks of size 1 next to blocks of size 1e-13 in one core and the relative cut of the
+        # rounding sweep removes the small ones -- a property of TT rounding of badly balanced sums, not of the propagator)
+        op = unit * op
     mr = dense.max_ranks(dims)
     ranks = mr if c['rank'] == 'maximal' else ([1] * (d + 1) if c['rank'] == 'rank1' else [1] + [min(2, r) for r in mr[1:-1]] + [1])
     x0 = initial_state(rng, dims, ranks, c['cplx'])
@@ -196,7 +205,7 @@ def body_krylov(c):
     coef = np.abs(V.conj().T @ v0) / np.linalg.norm(v0)
     assume(coef.min() > 1e-3 and np.min(np.diff(w)) > 1e-3)
     snaps = [(t, build.snapshot(t)) for t in (op, x0)]
-    s = ode.krylov(op, x0, N, c['h'])
+    s = ode.krylov(op, x0, N, c['h'] / unit)
     for t, sn in snaps:
         build.require_unchanged(t, sn, 'argument of krylov')
     require_consistent(s, 'consistent')
@@ -209,6 +218,8 @@ def body_krylov(c):
         lab.add('unnormalised_start')
     if c.get('gauge', 'right_orthonormal') != 'right_orthonormal':
         lab.add('start_not_right_orthonormal')
+    if c.get('unit_exp', 0):
+        lab.add('rescaled_units')
     if c['cplx']:
         lab.add('complex')
     if d >= 3:
